@@ -132,6 +132,11 @@ def _thaw(v):
 def fixpoint(ctx, repo, cname, tier):
     fi = repo.own_method(cname, FN)
     attrs = counter_attrs(fi)
+    # class-level constants read through `self.` (range bounds given names) are not state
+    c0 = repo.cls(cname)
+    written = {t.attr for m in c0.methods.values() for n in ast.walk(m.node) if isinstance(n, (ast.Assign, ast.AugAssign, ast.AnnAssign))
+               for t in (n.targets if isinstance(n, ast.Assign) else [n.target]) if isinstance(t, ast.Attribute) and isinstance(t.value, ast.Name) and t.value.id == "self"}
+    attrs = [a for a in attrs if not (a not in written and any(a in k.consts for k in repo.mro(c0)))]
     if not attrs:
         glob = [ast.unparse(t) for n in walk_no_nested(fi.node) if isinstance(n, (ast.Assign, ast.AugAssign))
                 for t in (n.targets if isinstance(n, ast.Assign) else [n.target]) if isinstance(t, ast.Subscript) and isinstance(t.value, ast.Name)]
